@@ -121,6 +121,26 @@ def handle (op : String) (args : List String) : Option String := do
       let (b, rest') ← natList rest
       if !rest'.isEmpty then none
       pure (boolStr (sortNat a == sortNat b))
+  | "c16.holds.ray_scan" => do    -- args: <what> n (box: 6 floats)×n o(3) d(3) mn mx k id…  — the index answer against the
+      -- Lean slab model evaluated on every element box (independent of the library's box test)
+      match args.drop 1 with
+      | ntok :: rest =>
+        let n ← nat? ntok
+        if rest.length < 6 * n + 8 then none
+        let fs ← floats? (rest.take (6 * n + 8))
+        let (got, rest') ← natList (rest.drop (6 * n + 8))
+        if !rest'.isEmpty then none
+        match fs.drop (6 * n) with
+        | [ox, oy, oz, dx, dy, dz, mn, mx] =>
+          let boxes := chunks 6 n fs
+          let want := (boxes.zip (List.range n)).filterMap fun (b, i) =>
+            match b with
+            | [a, b', c, d, e, f] =>
+              if intersectsRayInRange (⟨⟨a, b', c⟩, ⟨d, e, f⟩⟩ : AABB Float) ⟨ox, oy, oz⟩ ⟨dx, dy, dz⟩ mn mx then some i else none
+            | _ => none
+          pure (boolStr (sortNat got == sortNat want))
+        | _ => none
+      | _ => none
   | "c16.holds.closest" => do     -- args: <class> id d2 px py pz cx cy cz n d2_0 … d2_{n-1}
       match args.drop 1 with
       | idt :: rest =>
